@@ -317,21 +317,13 @@ theorem leafOpt_some (v : View) (id : Nat) (x : Option Bytes) (h : getLeaf v id 
 
 end C09
 
-/-! ### the property -/
-
-/-- **C09.**  `Search` on a retained key returns the values of the key itself and of its nearest
-    retained neighbours (nil beyond either end), for every option combination. -/
-theorem C09_search_retained (keys : List Bytes) (vals : Option (List Bytes)) (opt : Opt)
-    (t : Trie1) (hb : build keys vals opt = .ok t) (hne : keys ≠ [])
-    (m : Nat) (hm : m < keys.length)
-    (hk : keptAt (keepMask keys.length vals opt.dedup) m = true) :
-    search t.view (keys.getD m []) =
-      .ok (valOf (keepMask keys.length vals opt.dedup) vals
-             (prevKept (keepMask keys.length vals opt.dedup) m),
-           valOf (keepMask keys.length vals opt.dedup) vals (some m),
-           valOf (keepMask keys.length vals opt.dedup) vals
-             (nextKept (keepMask keys.length vals opt.dedup) m)) := by
-  generalize hkeep : keepMask keys.length vals opt.dedup = keep at hk ⊢
+/-- in a built trie `getLeaf` on the leaf of record `i` yields `recVal … i`
+    (used by C09, C02 and C03) -/
+theorem C09.getLeaf_of_build (keys : List Bytes) (vals : Option (List Bytes)) (opt : Opt)
+    (t : Trie1) (hb : build keys vals opt = .ok t) (hne : keys ≠ []) (id i : Nat)
+    (hleaf : IsLeafOf t id i) :
+    getLeaf t.view id = .ok (recVal (keepMask keys.length vals opt.dedup) vals i) := by
+  generalize hkeep : keepMask keys.length vals opt.dedup = keep
   have hwf : WF keys keep t := by rw [← hkeep]; exact (build_wf keys vals opt t hb hne).1
   have hasc := build_strictAsc keys vals opt t hb hne
   have helts := build_elts keys vals opt t hb hne
@@ -369,8 +361,26 @@ theorem C09_search_retained (keys : List Bytes) (vals : Option (List Bytes)) (op
       refine ⟨x, ?_, hkx⟩
       rw [List.getD_eq_getElem?_getD, List.getElem?_eq_getElem (by omega)]
       rfl
-  have hget : ∀ id i, IsLeafOf t id i → getLeaf t.view id = .ok (recVal keep vals i) :=
-    fun id i h => C09.getLeaf_leaf t vals keep id i h helts hz
+  exact C09.getLeaf_leaf t vals keep id i hleaf helts hz
+
+/-! ### the property -/
+
+/-- **C09.**  `Search` on a retained key returns the values of the key itself and of its nearest
+    retained neighbours (nil beyond either end), for every option combination. -/
+theorem C09_search_retained (keys : List Bytes) (vals : Option (List Bytes)) (opt : Opt)
+    (t : Trie1) (hb : build keys vals opt = .ok t) (hne : keys ≠ [])
+    (m : Nat) (hm : m < keys.length)
+    (hk : keptAt (keepMask keys.length vals opt.dedup) m = true) :
+    search t.view (keys.getD m []) =
+      .ok (valOf (keepMask keys.length vals opt.dedup) vals
+             (prevKept (keepMask keys.length vals opt.dedup) m),
+           valOf (keepMask keys.length vals opt.dedup) vals (some m),
+           valOf (keepMask keys.length vals opt.dedup) vals
+             (nextKept (keepMask keys.length vals opt.dedup) m)) := by
+  have hget := C09.getLeaf_of_build keys vals opt t hb hne
+  generalize hkeep : keepMask keys.length vals opt.dedup = keep at hk hget ⊢
+  have hwf : WF keys keep t := by rw [← hkeep]; exact (build_wf keys vals opt t hb hne).1
+  have hasc := build_strictAsc keys vals opt t hb hne
   obtain ⟨l, id, r, hsid, hleaf, hlres, hrres⟩ := searchID_kept keys keep t hasc hwf m hm hk
   refine C09.search_of_searchID _ _ l (some id) r _ _ _ hsid ?_ ?_ ?_
   · -- left neighbour
